@@ -200,7 +200,7 @@ fn build_nc_invalid(b: &mut ChainBuilder, parent: &Byte32, spec: BlockSpec) -> B
     let raw = v.data().header().raw().as_builder().transactions_root(Byte32::zero()).build();
     let header = v.data().header().as_builder().raw(raw).build();
     let block = v.data().as_builder().header(header).build().into_view_without_reset_header();
-    assert!(block.transactions_root() != block.calc_transactions_root() && block.hash() != v.hash());
+    assert!(block.transactions_root() != block.calc_transactions_root());
     b.blocks.remove(&v.hash());
     b.blocks.insert(block.hash(), block.clone());
     block
@@ -1081,13 +1081,72 @@ fn gen_order(rng: &mut Rng, t: &TreeSpec) -> Vec<usize> {
     order
 }
 
-fn build_history(rng: &mut Rng, opts: &Opts, bdir: &Path) -> (Hist, ChainBuilder, Vec<usize>) {
-    let el = rng.range(3, 6);
+/// Family "deep": a verified main chain M1..Mh (h in 10..=15), then a competing, in the end heavier
+/// branch B1..Bk forking at genesis / M1 / M2, delivered as ONE linear orphan chain: B2..Bk first
+/// (stored without ext, pooled, most of them far more than 6 blocks below the tip), B1 last. The last
+/// one or two M blocks may arrive between the B's.
+fn gen_deep(rng: &mut Rng) -> (TreeSpec, Vec<usize>) {
+    let h = rng.range(10, 15) as usize;
+    let f = *rng.pick(&[0usize, 0, 1, 2]);
+    let k = h - f + rng.range(1, 3) as usize;
+    let mut parent = vec![0usize];
+    let mut height = vec![0u64];
+    for id in 1..=h {
+        parent.push(id - 1);
+        height.push(id as u64);
+    }
+    for j in 1..=k {
+        let p = if j == 1 { f } else { h + j - 1 };
+        parent.push(p);
+        height.push(height[p] + 1);
+    }
+    let n = h + k;
+    let mut kind = vec![Kind::Valid; n + 1];
+    if rng.chance(1, 4) {
+        // the branch breaks near its end
+        kind[n - rng.below(3) as usize] = Kind::Ctx;
+    }
+    let tree = TreeSpec { parent, kind, height };
+    let held = rng.below(3) as usize; // M blocks arriving between the B's
+    let mut order: Vec<usize> = (1..=h - held).collect();
+    let bs: Vec<usize> = (h + 2..=n).collect();
+    let mut late: Vec<usize> = (h - held + 1..=h).collect();
+    for (i, b) in bs.iter().enumerate() {
+        if !late.is_empty() && i >= 1 && rng.chance(1, 3) {
+            order.push(late.remove(0));
+        }
+        order.push(*b);
+    }
+    order.extend(late);
+    order.push(h + 1);
+    if rng.chance(1, 2) {
+        // re-delivery of a pooled orphan (its pool entry is replaced)
+        let i = rng.below(bs.len() as u64) as usize;
+        let pos = order.iter().position(|x| *x == bs[i]).unwrap();
+        let at = rng.range(pos as u64 + 1, order.len() as u64 - 1) as usize;
+        let mut o = order.clone();
+        o.insert(at, bs[i]);
+        if order_ok(&tree, &o) {
+            order = o;
+        }
+    }
+    assert!(order_ok(&tree, &order), "deep history violates the delivery restrictions");
+    (tree, order)
+}
+
+fn build_history(rng: &mut Rng, opts: &Opts, bdir: &Path, deep: bool) -> (Hist, ChainBuilder, Vec<usize>) {
+    let el = if deep { rng.range(4, 5) } else { rng.range(3, 6) };
     let cfg = node_cfg(el);
     let consensus = make_consensus(&cfg);
-    let n = if opts.thorough() { rng.range(8, 25) } else { rng.range(6, 14) } as usize;
-    let tree = gen_tree(rng, n);
-    let order = gen_order(rng, &tree);
+    let (tree, order) = if deep {
+        gen_deep(rng)
+    } else {
+        let n = if opts.thorough() { rng.range(8, 25) } else { rng.range(6, 14) } as usize;
+        let tree = gen_tree(rng, n);
+        let order = gen_order(rng, &tree);
+        (tree, order)
+    };
+    let n = tree.parent.len() - 1;
     let mut builder = ChainBuilder::new(consensus.clone(), bdir);
     builder.max_branch_stores = 12;
     let mut blks = vec![genesis_blk(&consensus)];
@@ -1189,10 +1248,13 @@ fn check_store(out: &mut Out, db: &ChainDB, h: &Hist, builder: &mut ChainBuilder
     (v, unext)
 }
 
-/// the blocks InitLoadUnverified must pick up (independent re-statement of find_unverified_blocks)
+/// The blocks InitLoadUnverified must pick up: an independent statement of the property's scan rule, NOT
+/// taken from the implementation (orphan expiry = 6 epochs of at most `max_epoch_length` blocks; above
+/// the tip only while every number has a candidate). The implementation's upper bound tip + 81920 is
+/// unreachable here.
 fn expected_scan(h: &Hist, tip: usize, unext: &[usize]) -> Vec<usize> {
     let t = h.blks[tip].num;
-    let start = std::cmp::max(1, t.saturating_sub(ckb_chain::VERIF_ORPHAN_EXPIRED_EPOCH * h.consensus.max_epoch_length()));
+    let start = std::cmp::max(1, t.saturating_sub(6 * h.consensus.max_epoch_length()));
     let nums: HashSet<u64> = unext.iter().map(|i| h.blks[*i].num).collect();
     unext.iter().copied().filter(|c| {
         let n = h.blks[*c].num;
@@ -1252,10 +1314,33 @@ fn start_node(out: &mut Out, h: &Hist, node_dir: &Path, what: &str) -> Option<No
     Some(node)
 }
 
+struct Redo<'a> {
+    emit: bool,
+    /// emit the tip fence as an ordinary `deliver <tip>` op right after `restart`
+    tip_op: bool,
+    /// the deliveries after the restart, in order
+    post: &'a [usize],
+    /// "diverged-after-remaining": after this many `post` deliveries (the blocks that were never
+    /// inserted before the crash) the node must have reached (td, unique head)
+    remaining: Option<(usize, (u128, Option<usize>))>,
+    /// "diverged": (td, unique head) after all of `post`
+    expect: Option<(u128, Option<usize>)>,
+}
+
+fn check_converged(out: &mut Out, class: &str, when: &str, last: (Option<usize>, u128), want: (u128, Option<usize>), what: &str) {
+    if last.1 != want.0 {
+        out.oracle_fail(class, &format!("{what}: {when} td={} tip={:?}, the crash-free run ends with td={}", last.1, last.0, want.0));
+    } else if let Some(hd) = want.1 {
+        if last.0 != Some(hd) {
+            out.oracle_fail(class, &format!("{what}: {when} tip={:?}, the unique heaviest valid chain ends in {hd}", last.0));
+        }
+    }
+}
+
 /// Steps (3)-(5): restart, fence, `restart` op, `deliver <tip>` op, then the `post` deliveries.
-/// `expect` = (td, unique head) the node must converge to after `post` (None: not checked).
 /// Returns the final (tip, td).
-fn restart_and_redeliver(out: &mut Out, h: &Hist, node_dir: &Path, crashed: &Crashed, post: &[usize], emit: bool, tip_op: bool, expect: Option<(u128, Option<usize>)>, what: &str) -> Option<(Option<usize>, u128)> {
+fn restart_and_redeliver(out: &mut Out, h: &Hist, node_dir: &Path, crashed: &Crashed, redo: &Redo, what: &str) -> Option<(Option<usize>, u128)> {
+    let emit = redo.emit;
     let t_start = Instant::now();
     let node = start_node(out, h, node_dir, what)?;
     tick(&T_START_US, t_start);
@@ -1273,6 +1358,23 @@ fn restart_and_redeliver(out: &mut Out, h: &Hist, node_dir: &Path, crashed: &Cra
             dead = true;
         }
         if !dead {
+            // not-requeued: every block that was stored without ext inside the scan window (computed
+            // independently) must now have an ext, be deleted, or sit in the orphan pool. (With tip =
+            // genesis there is no fence through the verify queue: give queued blocks a bounded time.)
+            let scanned = crashed.view.tip.map(|tip| expected_scan(h, tip, &crashed.unext)).unwrap_or_default();
+            let unresolved = |r: &Runner| -> Vec<usize> {
+                let store = r.node.store();
+                scanned.iter().copied().filter(|c| {
+                    let hash = &h.blks[*c].hash;
+                    store.get(COLUMN_BLOCK_HEADER, hash.as_slice()).is_some() && store.get_block_ext(hash).is_none() && !r.in_pool(*c)
+                }).collect()
+            };
+            let w0 = Instant::now();
+            let mut left = unresolved(&r);
+            while !left.is_empty() && w0.elapsed() < wait_timeout() / 12 {
+                std::thread::sleep(Duration::from_millis(10));
+                left = unresolved(&r);
+            }
             let v = r.view();
             for id in &v.ext_false {
                 out.oracle_fail("ext-false", &format!("{what}: after restart: block {id} has a persisted ext with verified == Some(false)"));
@@ -1280,25 +1382,30 @@ fn restart_and_redeliver(out: &mut Out, h: &Hist, node_dir: &Path, crashed: &Cra
             if emit {
                 out.op(&restart_op, &fmt_line(&[], &v));
             }
-            // not-requeued
-            if let Some(tip) = crashed.view.tip {
-                let scanned = expected_scan(h, tip, &crashed.unext);
-                for _ in 0..scanned.len() {
-                    out.count("restart-requeued");
-                }
-                let left: Vec<usize> = r.pending_looking().into_iter().filter(|c| scanned.contains(c)).collect();
-                if !left.is_empty() {
-                    out.oracle_fail("not-requeued", &format!("{what}: after restart blocks {:?} are still stored without ext although their parent has an ext and is not invalid (crashed store: tip={tip} stored-without-ext={:?}); state: {}", left, crashed.unext, fmt_line(&[], &v)));
-                }
+            for _ in 0..scanned.len() {
+                out.count("restart-requeued");
             }
-            // the tip fence as an ordinary op, then the history again
-            let mut todo: Vec<usize> = vec![];
-            if emit && tip_op {
-                todo.push(v.tip.unwrap_or(0));
+            if !left.is_empty() {
+                out.oracle_fail("not-requeued", &format!("{what}: after restart blocks {:?} are still stored without ext and are not in the orphan pool: InitLoadUnverified did not pick them up (crashed store: tip={:?} number {:?}, stored-without-ext={:?} with numbers {:?}); state: {}", left, crashed.view.tip, crashed.view.tip.map(|t| h.blks[t].num), crashed.unext, crashed.unext.iter().map(|i| h.blks[*i].num).collect::<Vec<_>>(), fmt_line(&[], &v)));
             }
-            todo.extend(post.iter().copied());
+            // the convergence oracle after the remaining blocks only applies when every stored-unverified
+            // block is inside the correct scan window (otherwise it is legitimately left alone)
+            let remaining = if scanned.len() == crashed.unext.len() { redo.remaining } else { None };
+            if redo.remaining.is_some() && remaining.is_none() {
+                out.count("remaining-oracle-skipped-outside-window");
+            }
             let mut last = (v.tip, v.td);
-            for id in todo {
+            if let Some((0, want)) = remaining {
+                check_converged(out, "diverged-after-remaining", "after the restart alone (every delivered block was already stored)", last, want, what);
+            }
+            // the tip fence as an ordinary op, then the deliveries
+            let mut todo: Vec<(usize, bool)> = vec![];
+            if emit && redo.tip_op {
+                todo.push((v.tip.unwrap_or(0), false));
+            }
+            todo.extend(redo.post.iter().map(|i| (*i, true)));
+            let mut done_post = 0usize;
+            for (id, is_post) in todo {
                 match r.deliver(id) {
                     Ok(d) => {
                         for x in &d.view.ext_false {
@@ -1308,6 +1415,14 @@ fn restart_and_redeliver(out: &mut Out, h: &Hist, node_dir: &Path, crashed: &Cra
                             out.op(&format!("deliver {} {}", id, show_ids(&d.hint)), &fmt_line(&d.cbs, &d.view));
                         }
                         last = (d.view.tip, d.view.td);
+                        if is_post {
+                            done_post += 1;
+                            if let Some((n, want)) = remaining {
+                                if n == done_post {
+                                    check_converged(out, "diverged-after-remaining", "after the restart and the delivery of the blocks that were never inserted before the crash", last, want, what);
+                                }
+                            }
+                        }
                     }
                     Err(e) => {
                         out.oracle_fail("hang", &format!("{what}: re-delivery of {id} after restart: {e}"));
@@ -1320,14 +1435,8 @@ fn restart_and_redeliver(out: &mut Out, h: &Hist, node_dir: &Path, crashed: &Cra
                 }
             }
             if !dead {
-                if let Some((td, head)) = expect {
-                    if last.1 != td {
-                        out.oracle_fail("diverged", &format!("{what}: after re-delivering the whole history td={} tip={:?}, the crash-free run ends with td={td}", last.1, last.0));
-                    } else if let Some(hd) = head {
-                        if last.0 != Some(hd) {
-                            out.oracle_fail("diverged", &format!("{what}: after re-delivering the whole history tip={:?}, the unique heaviest valid chain ends in {hd}", last.0));
-                        }
-                    }
+                if let Some(want) = redo.expect {
+                    check_converged(out, "diverged", "after re-delivering the whole history", last, want, what);
                 }
                 result = Some(last);
             }
@@ -1343,6 +1452,14 @@ fn restart_and_redeliver(out: &mut Out, h: &Hist, node_dir: &Path, crashed: &Cra
     node.stop();
     tick(&T_STOP_US, t_stop);
     result
+}
+
+/// `scan <maxEpochLen> <order>`: which blocks must be resubmitted, from the crashed store's contents
+fn emit_scan(out: &mut Out, h: &Hist, crashed: &Crashed) {
+    let scanned: Vec<usize> = crashed.view.tip.map(|tip| expected_scan(h, tip, &crashed.unext)).unwrap_or_default();
+    let order = h.scan_order();
+    let listed: Vec<usize> = order.iter().copied().filter(|i| scanned.contains(i)).collect();
+    out.op(&format!("scan {} {}", h.consensus.max_epoch_length(), show_ids(&order)), &show_ids(&listed));
 }
 
 // ------------------------------------------------------------------------------------------------
@@ -1462,7 +1579,7 @@ fn multi_case(out: &mut Out, h: &Hist, builder: &mut ChainBuilder, env: &ChildEn
             if !crashed.unext.is_empty() {
                 out.nontrivial(h.fingerprint(order, &[n1, n2, 7]));
             }
-            if let Some((_, td)) = restart_and_redeliver(out, h, &dir, &crashed, order, false, false, expect, &what) {
+            if let Some((_, td)) = restart_and_redeliver(out, h, &dir, &crashed, &Redo { emit: false, tip_op: false, post: order, remaining: None, expect }, &what) {
                 answer = format!("td={td}");
             }
         }
@@ -1477,12 +1594,13 @@ fn one_history(out: &mut Out, opts: &Opts, rng: &mut Rng, base: &Path, hno: u64,
     let mut bdir = base.join(format!("b{hno}"));
     let thorough = opts.thorough();
     // a history whose reference run contains a reorg or a rejected block, if one of 3 attempts has one
+    let deep = hno % 3 == 1;
     let mut chosen = None;
     for attempt in 0..3 {
         drop(chosen.take());
         bdir = base.join(format!("b{hno}-{attempt}"));
         let _ = std::fs::remove_dir_all(&bdir);
-        let (h, builder, order) = build_history(rng, opts, &bdir);
+        let (h, builder, order) = build_history(rng, opts, &bdir, deep);
         let blocks_file = base.join(format!("h{hno}.blocks"));
         write_blocks(&blocks_file, &h.blks);
         let env = ChildEnv { exe: exe.to_path_buf(), out: opts.out.clone(), blocks_file, el: h.el };
@@ -1494,7 +1612,7 @@ fn one_history(out: &mut Out, opts: &Opts, rng: &mut Rng, base: &Path, hno: u64,
         let log = parse_log(&job.log);
         let _ = std::fs::remove_dir_all(&job.node_dir);
         let rr = if exit == ChildExit::Code(0) { analyse_ref(&h, &log) } else { None };
-        let interesting = rr.as_ref().map(|r| r.any_reorg && (attempt > 0 || r.any_reject || hno % 2 == 1)).unwrap_or(true);
+        let interesting = deep || rr.as_ref().map(|r| r.any_reorg && (attempt > 0 || r.any_reject || hno % 2 == 1)).unwrap_or(true);
         chosen = Some((h, builder, order, env, job, exit, log, rr));
         if interesting || attempt == 2 {
             break;
@@ -1509,7 +1627,10 @@ fn one_history(out: &mut Out, opts: &Opts, rng: &mut Rng, base: &Path, hno: u64,
     }
 
     // ---- Step A: the reference case
-    out.begin_case(&format!("ref el={} hist={} n={}", h.el, hno, h.blks.len() - 1));
+    if deep {
+        out.count("history-deep");
+    }
+    out.begin_case(&format!("ref el={} hist={} n={}{}", h.el, hno, h.blks.len() - 1, if deep { " deep" } else { "" }));
     emit_blks(out, &h);
     let Some(rr) = rr else {
         let class = if log.hang.is_some() || exit == ChildExit::Timeout { "hang" } else { "child-failed" };
@@ -1542,7 +1663,18 @@ fn one_history(out: &mut Out, opts: &Opts, rng: &mut Rng, base: &Path, hno: u64,
     let mut ns: Vec<u64> = if thorough || span <= 40 {
         ((rr.k0 + 1)..=rr.total).collect()
     } else {
-        (0..40u64).map(|i| rr.k0 + 1 + i * (span - 1) / 39).collect()
+        // always every commit of the last 3 deliveries, the rest evenly spread, about 40 in all
+        let tail_from = rr.before.get(rr.before.len().saturating_sub(3)).copied().unwrap_or(rr.k0) + 1;
+        let mut v: Vec<u64> = (tail_from..=rr.total).collect();
+        let head_span = tail_from - 1 - rr.k0;
+        let m = 40u64.saturating_sub(v.len() as u64).max(8).min(head_span);
+        if m >= 2 {
+            v.extend((0..m).map(|i| rr.k0 + 1 + i * (head_span - 1) / (m - 1)));
+        } else if head_span >= 1 {
+            v.push(rr.k0 + 1);
+        }
+        v.sort();
+        v
     };
     ns.dedup();
     let mut points: Vec<(u64, bool)> = vec![];
@@ -1624,7 +1756,17 @@ fn one_history(out: &mut Out, opts: &Opts, rng: &mut Rng, base: &Path, hno: u64,
         if !crashed.unext.is_empty() {
             out.count("crash-with-unverified-stored");
         }
-        restart_and_redeliver(out, &h, &job.node_dir, &crashed, &order, true, true, expect, &what);
+        if let Some(t) = crashed.view.tip {
+            if crashed.unext.iter().any(|i| h.blks[*i].num + 6 < h.blks[t].num) {
+                out.count("deep-stored-unverified-below-tip-6");
+            }
+        }
+        emit_scan(out, &h, &crashed);
+        // phase 1: only the blocks that were never inserted before the crash; phase 2: everything
+        let phase1: Vec<usize> = order.iter().copied().filter(|i| !crashed.view.stored.contains(i)).collect();
+        let mut post = phase1.clone();
+        post.extend(order.iter().copied());
+        restart_and_redeliver(out, &h, &job.node_dir, &crashed, &Redo { emit: true, tip_op: true, post: &post, remaining: expect.map(|e| (phase1.len(), e)), expect }, &what);
         cleanup();
     });
 
@@ -1645,7 +1787,7 @@ fn one_history(out: &mut Out, opts: &Opts, rng: &mut Rng, base: &Path, hno: u64,
 fn generate(out: &mut Out, opts: &Opts, base: &Path) {
     let mut rng = Rng::new(opts.seed);
     let exe = std::env::current_exe().expect("current_exe");
-    let nh = if opts.thorough() { 40 * opts.scale } else { 2 * opts.scale };
+    let nh = if opts.thorough() { 36 * opts.scale } else { 3 * opts.scale };
     let t0 = Instant::now();
     for hno in 0..nh {
         one_history(out, opts, &mut rng, base, hno, &exe);
@@ -1822,9 +1964,13 @@ fn replay_case(out: &mut Out, opts: &Opts, label: &[&str], lines: &[String], bas
         if !crashed.unext.is_empty() {
             out.nontrivial(h.fingerprint(&ids, &[k]));
         }
-        let rest = &ops[ci + 1..];
+        let mut rest = &ops[ci + 1..];
+        while !rest.is_empty() && rest[0][0] == "scan" {
+            emit_scan(out, &h, &crashed);
+            rest = &rest[1..];
+        }
         if !rest.is_empty() {
-            assert_eq!(rest[0][0], "restart", "after crashdeliver only `restart` followed by `deliver` ops can be replayed");
+            assert_eq!(rest[0][0], "restart", "after crashdeliver only `scan`, then `restart` followed by `deliver` ops can be replayed");
             let mut post = vec![];
             for o in &rest[1..] {
                 assert_eq!(o[0], "deliver", "after restart only `deliver` ops can be replayed: {}", o.join(" "));
@@ -1833,7 +1979,26 @@ fn replay_case(out: &mut Out, opts: &Opts, label: &[&str], lines: &[String], bas
             let pre: HashSet<usize> = ids.iter().copied().collect();
             let posts: HashSet<usize> = post.iter().copied().filter(|i| *i != 0).collect();
             let expect = if pre.is_subset(&posts) { Some(h.best(&posts)) } else { None };
-            restart_and_redeliver(out, &h, &job.node_dir, &crashed, &post, true, false, expect, &what);
+            // "remaining" = the delivered blocks that were never inserted: the oracle applies at the first
+            // point where all of them have been delivered again
+            let absent: HashSet<usize> = pre.iter().copied().filter(|i| !crashed.view.stored.contains(i)).collect();
+            let mut seen: HashSet<usize> = HashSet::new();
+            let mut cover = if absent.is_empty() { Some(0usize) } else { None };
+            for (j, id) in post.iter().enumerate() {
+                if cover.is_some() {
+                    break;
+                }
+                seen.insert(*id);
+                if absent.is_subset(&seen) {
+                    cover = Some(j + 1);
+                }
+            }
+            let remaining = cover.map(|j| {
+                let mut d = pre.clone();
+                d.extend(post[..j].iter().copied().filter(|i| *i != 0));
+                (j, h.best(&d))
+            });
+            restart_and_redeliver(out, &h, &job.node_dir, &crashed, &Redo { emit: true, tip_op: false, post: &post, remaining, expect }, &what);
         }
         let _ = std::fs::remove_dir_all(&job.node_dir);
         let _ = std::fs::remove_file(&job.log);
@@ -1880,6 +2045,8 @@ pub fn run(opts: &Opts) {
         generate(&mut out, opts, &base);
     }
     let _ = std::fs::remove_dir_all(&base);
+    let deep_n = out.hist.get("deep-stored-unverified-below-tip-6").copied().unwrap_or(0);
+    out.extra.insert("deep-stored-unverified-below-tip-6".into(), serde_json::json!(deep_n));
     out.extra.insert("wall_s".into(), serde_json::json!(t0.elapsed().as_secs_f64()));
     let secs = |a: &std::sync::atomic::AtomicU64| a.load(std::sync::atomic::Ordering::Relaxed) as f64 / 1e6;
     out.extra.insert("parent_time_s".into(), serde_json::json!({"inspect_crashed_db": secs(&T_INSPECT_US), "node_start": secs(&T_START_US), "fence_and_redeliver": secs(&T_REDELIVER_US), "node_stop": secs(&T_STOP_US)}));
